@@ -1,5 +1,6 @@
 import Mp4ff.Model.Init
 import Mp4ff.Lemmas.C19
+import Mp4ff.Expect.Transcribed
 /-!
 # C19 — init segments built through the API are consistent and self-describing
 Property theorems about `Model/Init.lean` (CreateEmptyInit / AddEmptyTrack / MoovBox.AddChild / SetLanguage /
@@ -58,5 +59,10 @@ theorem init_tree_wf (st : St) (h : ∀ c ∈ st.children, ∀ ty, c = Child.oth
 /-- non-vacuity: a three-track history -/
 example : (build [⟨90000, "video", "und", 0, 0, []⟩, ⟨48000, "audio", "en-US", 0, 0, []⟩, ⟨1000, "wvtt", "swe", 0, 0, []⟩]).next = 4 := by
   decide
+
+/-- the Go functions the models of this property transcribe (committed table `spec/transcribed.json`, checked against
+    the current source by the extractor on every run) all still exist -/
+theorem model_sources_exist :
+    (["BoxTree.lean", "Boxes.lean", "Init.lean"] : List String).all Mp4ff.Expect.presentFor = true := by decide +kernel
 
 end Mp4ff.Init.C19
